@@ -7,3 +7,6 @@ open Biogo.Properties.C11_checker
 #print axioms checkHistory_iff
 #print axioms rejectsStatement_sound
 #print axioms programStatement_sound
+#print axioms checkSegs_cycles
+#print axioms programStatementA_cycles
+#print axioms segs_from_fresh
